@@ -795,9 +795,11 @@ impl<'a> Parser<'a> {
             Token::Ident("false" | "False") => Ok(const_val!(false)),
             Token::Ident("none" | "None") => Ok(const_val!(())),
             Token::Ident(name) => Ok(ast::Expr::Var(Spanned::new(ast::Var { id: name }, span))),
+            // (look at the pending token without taking it: `current()` hands out a
+            // pending lexer error, which would be lost here)
             Token::Str(val)
                 if !matches!(
-                    self.stream.current(),
+                    self.stream.current,
                     Ok(Some((Token::Str(_), _) | (Token::String(_), _)))
                 ) =>
             {
